@@ -339,6 +339,7 @@ fn main() {
         Some("spec") => specgen::cmd_spec(&args[2..]),
         Some("cps") => cpsops::cmd_cps(&args[2..]),
         Some("fold") => cpsops::cmd_fold(&args[2..]),
+        Some("props") => cpsops::cmd_props(&args[2..]),
         _ => {
             eprintln!("usage: rvharness exec <seed> <npatterns> <nhays> <budget> [corpus]");
             std::process::exit(2);
